@@ -52,6 +52,46 @@ def tolerant_harness(binary, records, timeout=1800, env=None):
     return outs, p.returncode, p.stderr
 
 
+def run_robust(chk, recs, variant, name):
+    """execute records on a build; when the harness dies (VERIFY_CHECK abort, signal) the outputs still in its stdio buffer are
+    lost, so the culprit is searched by executing the following records one process each; it is reported as a violation and
+    removed, and the run is repeated without it.  Returns (records executed, observed events)."""
+    recs = list(recs); crashes = 0
+    while recs:
+        obs, rc, err = tolerant_harness(chk.bins[variant], recs)
+        if rc == 0 and len(obs) == len(recs): return recs, obs
+        culprit = None
+        for i in range(len(obs), len(recs)):
+            o1, rc1, err1 = tolerant_harness(chk.bins[variant], [recs[i]])
+            if rc1 != 0 or len(o1) != 1:
+                culprit, rc, err = i, rc1, err1; break
+        if culprit is None:
+            raise Infra("harness failed on %s [%s] (rc=%s) but no single record reproduces it: %s" % (name, variant, rc, err[-300:]))
+        crashes += 1
+        chk.violation("implementation crashed or aborted (rc=%s) on a record of %s [%s]: %s" % (rc, name, variant, err.strip()[-300:]), [recs[culprit]], variant)
+        del recs[culprit]
+        if crashes >= 5:
+            chk.notes.append("%s on %s: 5 crashing records found, the remaining records were not executed" % (name, variant)); return [], []
+    return [], []
+
+
+def replay_robust(chk, recs, variant, name):
+    """the comparison of Check.replay on top of run_robust"""
+    recs, obs = run_robust(chk, recs, variant, name)
+    if not recs: return
+    bad = vlib.compare(recs, obs)
+    chk.evaluations += len(recs)
+    for r in recs: chk.case_labels[chk.label_of(r)] += 1
+    if len(chk.samples) < 4: chk.samples.append({"direction": "spec->impl", "variant": variant, "record": chk.shorten(recs[len(recs) // 2])})
+    if bad:
+        again, _, _ = tolerant_harness(chk.bins[variant], bad)        # a disagreement must reproduce on immediate re-run
+        for b, o in list(zip(bad, again))[:25]:
+            if vlib.sub_diff(b["spec_out"], o["out"]):
+                chk.violation("%s on build '%s': specification and implementation disagree on %s" % (name, variant, sorted(b["diff"].keys())),
+                              [{"e": b["e"], "in": b["in"], "out": b["spec_out"], "impl_out": b["impl_out"]}], variant)
+    log("[%s] replay %s on %s: %d records, %d disagreements" % (chk.pid, name, variant, len(recs), len(bad)))
+
+
 def b32(x): return list(x.to_bytes(32, "big"))
 def le_int(d): return sum(v << (8 * i) for i, v in enumerate(d))
 
@@ -164,12 +204,15 @@ def edge(rng, pool, bits=256):
 
 
 def fe_driver(rng, nseq, with_bounds):
-    """random legal operation sequences; the (m, n) bookkeeping here only serves to generate legal inputs -- TLC decides every step"""
+    """random legal operation sequences; the (magnitude, normalized) bookkeeping here only serves to generate legal inputs --
+    TLC decides every step.  The third component marks registers whose LIMBS descend linearly from secp256k1_fe_get_bounds
+    (limbs at the documented maximum of their magnitude): such a register is not grown to magnitude 32, because the 10x26
+    normalisation routines overflow a 32-bit limb there (finding F2, reproduced by a dedicated probe in run())."""
     recs = []
     for _ in range(nseq):
         nr = rng.choice([2, 3, 3, 4])
         init = [edge(rng, FE_EDGE) for _ in range(nr)]
-        st = [(1, 0)] * nr; ops = []
+        st = [(1, 0, 0)] * nr; ops = []
         for _ in range(rng.randrange(6, 16)):
             for _try in range(20):
                 r, a, b = rng.randrange(nr), rng.randrange(nr), rng.randrange(nr)
@@ -180,59 +223,60 @@ def fe_driver(rng, nseq, with_bounds):
                 k = 0; new = None; pred = False
                 if nm in ("normalize", "normalize_var"):
                     if not ok(R): continue
-                    new = (1, 1)
+                    new = (1, 1, 0)
                 elif nm == "normalize_weak":
                     if not ok(R): continue
-                    new = (1, R[1])
+                    new = (1, R[1], 0)
                 elif nm == "negate":
                     if not ok(A) or A[0] > 31: continue
-                    k = rng.choice([A[0], A[0], rng.randrange(A[0], 32), 31]); new = (k + 1, 0)
+                    k = rng.choice([A[0], A[0], rng.randrange(A[0], 32), 31]); new = (k + 1, 0, A[2])
                 elif nm == "add":
                     if not ok(R) or not ok(A) or R[0] + A[0] > 32: continue
-                    new = (R[0] + A[0], 0)
+                    new = (R[0] + A[0], 0, R[2] | A[2])
                 elif nm == "add_int":
                     if not ok(R) or R[0] > 31: continue
-                    k = rng.choice([0, 1, 7, 0x7FFF, rng.randrange(0x8000)]); new = (R[0] + 1, 0)
+                    k = rng.choice([0, 1, 7, 0x7FFF, rng.randrange(0x8000)]); new = (R[0] + 1, 0, R[2])
                 elif nm == "mul_int":
                     if not ok(R): continue
                     k = rng.randrange(0, 33)
-                    if R[0] * k > 32: k = 32 // R[0] if R[0] else k
-                    new = (R[0] * k, 0)
+                    if R[0] * k > 32: k = 32 // R[0]
+                    new = (R[0] * k, 0, R[2])
                 elif nm == "mul":
                     if not ok(A) or not ok(B) or A[0] > 8 or B[0] > 8 or r == b or a == b: continue
-                    new = (1, 0)
+                    new = (1, 0, 0)
                 elif nm == "sqr":
                     if not ok(A) or A[0] > 8: continue
-                    new = (1, 0)
+                    new = (1, 0, 0)
                 elif nm == "half":
                     if not ok(R) or R[0] > 31: continue
-                    new = (R[0] // 2 + 1, 0)
+                    new = (R[0] // 2 + 1, 0, R[2])
                 elif nm in ("inv", "inv_var"):
                     if not ok(A): continue
-                    new = (1 if A[0] else 0, 1)
+                    new = (1 if A[0] else 0, 1, 0)
                 elif nm == "sqrt":
                     if not ok(A) or A[0] > 8 or r == a: continue
-                    new = (1, 0)
+                    new = (1, 0, 0)
                 elif nm == "cmov":
                     if not ok(A) or not ok(R): continue
-                    k = rng.randrange(2); new = (max(R[0], A[0]), R[1] & A[1])
+                    k = rng.randrange(2); new = (max(R[0], A[0]), R[1] & A[1], R[2] | A[2])
                 elif nm == "set_int":
-                    k = rng.choice([0, 1, 0x7FFF, rng.randrange(0x8000)]); new = (1 if k else 0, 1)
+                    k = rng.choice([0, 1, 0x7FFF, rng.randrange(0x8000)]); new = (1 if k else 0, 1, 0)
                 elif nm == "set_b32_mod":
-                    k = b32(edge(rng, FE_EDGE)); new = (1, 0)
+                    k = b32(edge(rng, FE_EDGE)); new = (1, 0, 0)
                 elif nm == "set_b32_limit":
-                    v = edge(rng, FE_EDGE); k = b32(v); new = (1, 1) if v < P else (-1, 0)
+                    v = edge(rng, FE_EDGE); k = b32(v); new = (1, 1, 0) if v < P else (-1, 0, 0)
                 elif nm == "stor":
                     if not ok(A) or not A[1]: continue
-                    new = (1, 1)
+                    new = (1, 1, 0)
                 elif nm == "get_bounds":
-                    k = rng.choice([0, 1, 2, 8, 9, 16, 31, 32, rng.randrange(33)]); new = (k, 1 if k == 0 else 0)
+                    k = rng.choice([0, 1, 2, 8, 9, 16, 31, 32, rng.randrange(33)]); new = (k, 1 if k == 0 else 0, 1)
                 else:
                     pred = True
                     if nm in ("get_b32", "is_zero", "is_odd") and not (ok(A) and A[1]): continue
-                    if nm == "equal" and not (ok(A) and ok(B) and A[0] <= 1 and B[0] <= 31): continue
+                    if nm == "equal" and not (ok(A) and ok(B) and A[0] <= 1 and B[0] <= 30): continue        # header says 31: erratum E3
                     if nm == "cmp_var" and not (ok(A) and ok(B) and A[1] and B[1]): continue
                     if nm in ("normalizes_to_zero", "normalizes_to_zero_var", "is_square_var") and not ok(A): continue
+                if not pred and nm != "get_bounds" and new[2] and new[0] == 32: continue                       # F2, see docstring
                 if nm in ("normalize", "normalize_weak", "normalize_var", "add_int", "mul_int", "half", "set_int", "set_b32_mod", "set_b32_limit", "get_bounds"): a = b = r
                 if nm in ("negate", "sqr", "inv", "inv_var", "sqrt", "cmov", "stor", "add"): b = a
                 ops.append([nm, r, a, b, k])
@@ -384,26 +428,51 @@ def run(chk):
     log("[C05] sha stream machine: %d states, %d transitions -> %d replay sequences" % (sst, str_, len(stours)))
     chk.exhaustive = False
     for v in variants:
-        chk.replay(ftours if v in VERIFY_VARIANTS else strip_verify(ftours), v, "field API transition tour")
-        chk.replay(stours, v, "SHA-256 write-sequence tour")
-        chk.replay(gen, v, "scalar / group law / ecmult / hash boundary records")
+        replay_robust(chk, ftours if v in VERIFY_VARIANTS else strip_verify(ftours), v, "field API transition tour")
+        replay_robust(chk, stours, v, "SHA-256 write-sequence tour")
+        replay_robust(chk, gen, v, "scalar / group law / ecmult / hash boundary records")
     # ---- T direction ----
     nfe, nsc, ngl, nem, nh = (120, 500, 250, 90, 60) if quick else (1500, 6000, 3000, 900, 600)
     stage1 = [{"e": "KEcmult", "in": {"fn": "gen", "a": b32(edge(rng, SC_EDGE))}} for _ in range(24)]
-    ev1 = chk.record(stage1, "std")
+    _, ev1 = run_robust(chk, stage1, "std", "driver inputs (first stage)")
     pts = [e["out"]["r"] for e in ev1 if e["out"]["r"][0] == 0]
     if len(pts) < 4: raise Infra("driver: too few points from the first stage")
     common = sc_driver(rng, nsc) + group_driver(rng, pts, ngl) + ecmult_driver(rng, pts, nem) + hash_driver(rng, nh) + fe_driver(rng, nfe, False)
     events = list(ev1); seen = set(); per_variant = {}
     for v in variants:
         inputs = common + fe_driver(random.Random(chk.seed + 17), nfe // 2, True)     # get_bounds values are layout-specific: same inputs, recorded per variant
-        ev = chk.record(inputs, v)
+        _, ev = run_robust(chk, inputs, v, "driver inputs")
         per_variant[v] = len(ev); fresh = 0
         for e in ev:
             k = json.dumps(e, sort_keys=True, separators=(",", ":"))
             if k in seen: continue
             seen.add(k); events.append(e); fresh += 1
         log("[C05] driver on %s: %d events recorded, %d not byte-identical to an earlier variant's" % (v, len(ev), fresh))
+    # ---- dedicated probes for the two contract inconsistencies found (notes/C05.md) ----
+    strict = os.environ.get("C05_STRICT", "0") == "1"
+    # F2: a field element of magnitude 32 with limbs at the documented maximum (get_bounds(16) doubled) is mis-normalised by the 10x26 field
+    f2 = [{"e": "KFeSeq", "in": {"init": [b32(1)], "ops": [["get_bounds", 0, 0, 0, 16], ["mul_int", 0, 0, 0, 2]]}},
+          {"e": "KFeSeq", "in": {"init": [b32(1)], "ops": [["get_bounds", 0, 0, 0, 16], ["add", 0, 0, 0, 0], ["normalize", 0, 0, 0, 0], ["get_b32", 0, 0, 0, 0]]}}]
+    if not strict:
+        for r in f2:
+            chk.known.append("known: property=C05 key=%s F2: 10x26 field (USE_FORCE_WIDEMUL_INT64): fe_normalize/_weak/_var of a magnitude-32 element whose limbs are at "
+                             "their documented maximum (secp256k1_fe_get_bounds(16) doubled) wraps a 32-bit limb and returns a wrong value; set C05_STRICT=1 to count it "
+                             "as a violation" % vlib.rec_key(r))
+    for v in variants:
+        _, ev = run_robust(chk, f2, v, "probe F2")
+        for e in ev:
+            k = json.dumps(e, sort_keys=True, separators=(",", ":"))
+            if k not in seen: seen.add(k); events.append(e)
+    # E3: fe_equal(a, b) with b.magnitude = 31 is inside the documented precondition but aborts in VERIFY builds
+    e3 = {"e": "KFeSeq", "in": {"init": [b32(5), b32(7)], "ops": [["normalize", 0, 0, 0, 0], ["negate", 1, 1, 1, 30], ["equal", 0, 0, 1, 0]]}}
+    for v in variants:
+        obs, rc, err = tolerant_harness(chk.bins[v], [e3])
+        if rc != 0:
+            msg = "E3 [%s]: secp256k1_fe_equal(a, b) with b.magnitude = 31 (allowed by field.h and by the function's own VERIFY precondition) aborts: %s" % (v, err.strip()[-160:])
+            if strict: chk.violation(msg, [e3], v)
+            else: chk.known_hits.append("known: property=C05 key=%s %s" % (vlib.rec_key(e3), msg))
+        elif obs and obs[0]["out"]["ret"][-1] != 0:
+            chk.violation("fe_equal(5, -7) returned non-zero", [e3], v)
     # events of two variants differ legitimately only in KFeSeq records (mag/nrm presence, get_bounds values); anything else is a cross-configuration difference
     # that the specification will reject for at least one of the two
     chk.validate(events, MODULE, "C05_trace.cfg", "driver", timeout=6000)
